@@ -1011,4 +1011,41 @@ example : keyHit (.dict [(.num (.int (.small 1)), .num (.int (.small 1)))] (some
   exact impl_isEquiv_full.refl _ hwf
 
 
+/-! ## op-assign whose right-hand side reads the dictionary being updated -/
+
+theorem rhsEval_refines (d k2 : Val) (form : String) (hd : DictWF d) (hk2 : KeyWF k2) :
+    DictOps.rhsEval keyHit d form k2 = DictOps.rhsEval DictSpec.hit d form k2 := by
+  have h := dict_refines_finmap_full d k2 .null hd hk2
+  unfold DictOps.rhsEval
+  split
+  · exact h.1
+  · exact h.2.1
+  · rfl
+  · rfl
+  · have := h.2.2.1
+    cases d <;> simp_all [DictOps.isIn]
+  · rfl
+
+/-- `d[k] f= <rhs reading d>` refines the finite map: the right-hand side sees the dictionary
+BEFORE the update (the entry being updated still holds its old value, whichever spelling of the
+key the right-hand side uses) -/
+theorem opAssignRhs_refines (d k k2 : Val) (f form : String) (hd : DictWF d) (hk : KeyWF k) (hk2 : KeyWF k2) :
+    DictOps.opAssignRhs keyHit d k f form k2 = DictOps.opAssignRhs DictSpec.hit d k f form k2 := by
+  unfold DictOps.opAssignRhs
+  rw [(dict_refines_finmap_full d k .null hd hk).1, rhsEval_refines d k2 form hd hk2]
+  cases DictOps.index DictSpec.hit d k with
+  | ok lhs =>
+    simp only
+    cases DictOps.rhsEval DictSpec.hit d form k2 with
+    | ok v => exact (dict_refines_finmap_update_full d d d k v f hd hd hd hk).2.1
+    | throw => rfl
+    | panic => rfl
+  | throw => rfl
+  | panic => rfl
+
+/-- reading the entry being updated through an equal key of another spelling gives its OLD value -/
+example : (DictOps.rhsEval keyHit (.dict [(.num (.int (.small 1)), .num (.int (.small 5)))] none) "get"
+    (.num (.float (.fin 1 0)))).map numOf = .ok (some (.int (.small 5))) := by decide +kernel
+
+
 end Noulith.C09
